@@ -114,7 +114,7 @@ REG = {
         'tokens 0/8/13/20/269/300, ping/pong/empty/CSM/responses/malformed messages, release/abort, declared sizes above the maximum - cut at every 1-cut, sampled '
         '2- and 3-cut placements, one byte per read, empty reads, buffer-size reads and random cuts; TLC requires the delivered requests (token, payload), pongs '
         'and closure to equal Stream!Obs of the stream for every chunking.',
-   note='Covers TCP framing (TLS uses the same reader above the TLS layer). WebSocket handshake/frame segmentation is NOT covered by this check yet (DESIGN.md); '
+   note='Covers TCP framing (TLS uses the same reader above the TLS layer; arrivals are signalled level- and edge-triggered) and WebSocket: the HTTP upgrade request and masked frames of 0..1500 bytes through the real accept / read path, every cut inside the frames, frames a CoAP endpoint does not take (unmasked, text, ping, close, continuation, oversize). Not covered: WSS, an invalid upgrade request, fragmented frames; '
         'declared sizes within 100 bytes of the configured maximum and TKL 15 inside a stream are not generated.'),
  'C14': dict(module='oscore', engine='oscore', category='model_checking', design_ref='4/C14',
    technique='TLA+ spec Oscore (RFC 8613 transcribed: option classes, plaintext, CBOR AAD, nonce, compressed COSE object) + TLC checking every field of real protections recorded at the AEAD seam; systematic tampering',
